@@ -189,7 +189,7 @@ pub fn run(ctx: &mut Ctx) {
         ctx.forall(&format!("seqs/{}", id.name()), cases, gen::owned_spec_raw(id, max).prop_map(move |s| Case { codec: id, s }), dispatch);
     }
     for id in ALL_CODECS {
-        let lens = gen::long_lens(ctx.thorough(), ctx.seed);
+        let lens = gen::long_lens_bits(id.bits(), ctx.thorough(), ctx.seed);
         ctx.forall_lens(&format!("seqs_long/{}", id.name()), &lens, |n| gen::owned_spec_n(id, n).prop_map(move |s| Case { codec: id, s }), dispatch);
     }
     for id in ALL_CODECS {
